@@ -131,9 +131,10 @@ void ThreePointsNumericalDerivative::updateDerivatives(const ParameterList& para
     }
 
 
+    // The variables left at a probe value so far: the last one of the loop above, then the last pair of the loop below.
+    string lastVar1 = lastVar, lastVar2;
     if (computeCrossD2_)
     {
-      string lastVar1, lastVar2;
       for (unsigned int i = 0; i < variables_.size(); i++)
       {
         string var1 = variables_[i];
@@ -153,13 +154,11 @@ void ThreePointsNumericalDerivative::updateDerivatives(const ParameterList& para
           vector<string> vars(2);
           vars[0] = var1;
           vars[1] = var2;
-          if (i > 0 && j > 0)
-          {
-            if (lastVar1 != var1 && lastVar1 != var2)
-              vars.push_back(lastVar1);
-            if (lastVar2 != var1 && lastVar2 != var2)
-              vars.push_back(lastVar2);
-          }
+          // also reset the variables still at a probe value:
+          if (lastVar1 != "" && lastVar1 != var1 && lastVar1 != var2)
+            vars.push_back(lastVar1);
+          if (lastVar2 != "" && lastVar2 != var1 && lastVar2 != var2 && lastVar2 != lastVar1)
+            vars.push_back(lastVar2);
           p = parameters.createSubList(vars);
 
           double value1 = function_->getParameterValue(var1);
@@ -210,7 +209,14 @@ void ThreePointsNumericalDerivative::updateDerivatives(const ParameterList& para
     if (function2_)
       function2_->enableSecondOrderDerivatives(computeD2_);
     if (functionChanged)
-      function_->setParameters(parameters.createSubList(lastVar));
+    {
+      vector<string> toReset(1, lastVar);
+      if (lastVar1 != "" && lastVar1 != lastVar)
+        toReset.push_back(lastVar1);
+      if (lastVar2 != "" && lastVar2 != lastVar && lastVar2 != lastVar1)
+        toReset.push_back(lastVar2);
+      function_->setParameters(parameters.createSubList(toReset));
+    }
   }
   else
   {
